@@ -352,6 +352,20 @@ func (sr *SnapshotReader) getHeader() (pb.SnapshotHeader, error) {
 			return empty, err
 		}
 		payloadSz := st.Size() - int64(HeaderSize) - int64(tailSize)
+		// the tail record written by the block writer has the total size of the
+		// blocks and a magic number, check them so that a file that lost its tail
+		// is not read as a shorter but valid sequence of blocks.
+		if payloadSz < 0 {
+			panic("corrupted snapshot file, too short")
+		}
+		tail := make([]byte, tailSize)
+		if _, err := sr.file.ReadAt(tail, st.Size()-int64(tailSize)); err != nil {
+			return empty, err
+		}
+		if binary.LittleEndian.Uint64(tail[:8]) != uint64(payloadSz) ||
+			!bytes.Equal(tail[8:], writerMagicNumber) {
+			panic("corrupted snapshot file tail")
+		}
 		reader = io.LimitReader(reader, payloadSz)
 	}
 	sr.r = mustGetVersionedReader(reader, v, sr.header.ChecksumType)
